@@ -56,6 +56,13 @@ Theorem C11_output_path_forms :
     end.
 Proof. reflexivity. Qed.
 
+(* the walk terminates on every graph, cycles included: the seen-set strictly grows, so the |U| + 1 units of fuel the model
+   gives it are enough — any larger amount gives the same result (running out of fuel never happens) *)
+Theorem C11_walk_terminates_within_its_fuel :
+  forall cfg U st i dir k,
+    export_recursive cfg U (S (length U) + k) st [] i dir = export_recursive cfg U (S (length U)) st [] i dir.
+Proof. exact fuel_is_enough. Qed.
+
 (* non-vacuity: a cycle A <-> B, C reachable only through B, D not exportable, E unrelated; export_all(A) records A, B, C,
    writes three files and leaves the unrelated file alone *)
 Module C11_ex.
@@ -89,3 +96,4 @@ Print Assumptions C11_nothing_else_is_touched.
 Print Assumptions C11_target_is_base_joined_with_output_path.
 Print Assumptions C11_written_path_is_the_reported_path.
 Print Assumptions C11_output_path_forms.
+Print Assumptions C11_walk_terminates_within_its_fuel.
